@@ -23,10 +23,10 @@ type accInfo struct {
 }
 
 type shadowCell struct {
-	name   string
-	write  *accInfo
-	keep   unsafe.Pointer // keeps the object alive so its address is not reused
-	reads  map[int]*accInfo
+	name  string
+	write *accInfo
+	keep  unsafe.Pointer // keeps the object alive so its address is not reused
+	reads map[int]*accInfo
 }
 
 // Acquire joins the object's clock into the running thread.
